@@ -15,6 +15,7 @@
     tokens; either they no longer parse, or they parse to another layout, and `iw_T` / `ir_T` fail.
 -/
 import Golib.Step.Interp
+import Golib.Step.Setters
 import Golib.Step.Layouts
 import Golib.Step.ValueInst
 import Golib.Gen.C08
@@ -150,6 +151,16 @@ theorem ir_ErrorSnapPack1 : Gen.C08.rtok_ErrorSnapPack1.head? = some (.call "Abs
     parseR (Gen.C08.rtok_ErrorSnapPack1.drop 1) = some errorSnapPack1Body.rview := by decide
 theorem gen_roundtrip_ErrorSnapPack1 : Denotes (Gen.C08.wtok_ErrorSnapPack1.drop 1) (Gen.C08.rtok_ErrorSnapPack1.drop 1) errorSnapPack1Body :=
   interp_roundtrip valueRT _ _ errorSnapPack1Body (by decide) iw_ErrorSnapPack1.2 ir_ErrorSnapPack1.2
+
+/-! ### builders called more than once: replace or accumulate, read off the source -/
+
+/-- every builder of the covered containers denotes the semantics the model gives it: the three
+    `SetProfile` and `SetStack` REPLACE their field (`this.f = …`), `SetCtr` / `SetTrue` or into it.
+    (An appending `SetProfile` — `this.Steps = append(this.Steps, …)` — denotes nothing and this fails.) -/
+theorem setters_agree :
+    Gen.C08.setters.map (fun p => (p.1, parseSetter p.2)) = setterTable.map (fun p => (p.1, some p.2)) := by decide
+
+example : parseSetter [.asg "Steps" "[]byte" "append(Steps, step.ToBytesStep(local1)...)"] = none := by decide
 
 /-- non-vacuity: the interpreters do not accept everything — a writer skeleton with a call they do not
     know, or one that stops inside a section, denotes nothing -/
